@@ -88,6 +88,11 @@ def run_case(case):
     want_keys = {"beta"} | set(slots) | ({"shocks"} if shapes else set())
     if set(tmpl) != want_keys:
         vs.append({"clause": "template keys: beta, every function, shocks iff a stochastic state exists", "detail": f"extra {sorted(set(tmpl) - want_keys)}, missing {sorted(want_keys - set(tmpl))}"})
+    # the template of the second build from the *same* model object (ImplFns creates the simulate function after the solve function)
+    t2 = fns.sim_template
+    if set(t2) != want_keys or any(sorted(t2.get(f, {})) != ps for f, ps in slots.items() if isinstance(t2.get(f), dict)):
+        vs.append({"clause": "template keys: beta, every function, shocks iff a stochastic state exists",
+                   "detail": f"second get_lcm_function call on the same model object: extra {sorted(set(t2) - want_keys)}, missing {sorted(want_keys - set(t2))}"})
     for f, ps in slots.items():
         evals += 1
         got = sorted(tmpl.get(f, {})) if isinstance(tmpl.get(f), dict) else None
